@@ -46,10 +46,21 @@ class StreamFactory(Contract):
         return None
 
     def getattr_default(self, it, obj, name, default, node):
-        if name == "__name__" and obj.eq(self.source):
+        if name in ("__name__", "__qualname__") and obj.eq(self.source):
             self.name_default = default
-            return V.VStr(lib.fun_attr(V.fid(obj), it.st.strs.setdefault("__name__", len(it.st.strs)))) \
+            return V.VStr(lib.fun_attr(V.fid(obj), it.st.strs.setdefault(name, len(it.st.strs)))) \
                 if it.st.decide(self.has_name, "source-has-__name__") else default
+        return None
+
+    # the source is any callable returning an async generator: a functools.partial of a generator function and an instance
+    # whose __call__ is a generator have neither __name__ nor __qualname__ - reading them unguarded raises AttributeError
+    oracle_metadata_may_be_absent = True
+
+    def attr(self, it, obj, name, node):
+        if name in ("__name__", "__qualname__") and obj.eq(self.source):
+            if not it.st.decide(self.has_name, "source-has-__name__"):
+                raise PyRaise(it.new_exc("AttributeError"), f"the source callable has no {name} (partial / callable object)")
+            return V.VStr(lib.fun_attr(V.fid(obj), it.st.strs.setdefault(name, len(it.st.strs))))
         return None
 
     def context_run(self, it, ctxobj, ca, node):
